@@ -37,10 +37,13 @@ VEC_OPS_UNARY = ['push_back_copy', 'push_back_move', 'emplace_back', 'pop_back',
 VEC_OPS_CTOR = ['ctor_default', 'ctor_n', 'ctor_n_val', 'ctor_range', 'ctor_range_input', 'ctor_il']
 VEC_OPS_BINARY = ['copy_assign', 'move_assign', 'swap_member', 'compare']
 
+NEEDS_NONEMPTY = ('pop_back', 'pop_back_val', 'erase_one') + tuple('alias_' + x for x in ('push_back', 'emplace_back', 'insert_one', 'emplace', 'insert_n', 'resize', 'assign_n', 'append_n'))
+
 def vec_queries(Query, ops, cfgs, timeout=300, unwind=None):
     qs = []
     for d in cfgs:
         for op in ops:
+            if d['VF_KIND'] == 0 and d['VF_CLS'] == 0 and op in NEEDS_NONEMPTY: continue     # an amc::vector without storage is empty
             if 'input' in op: timeout = max(timeout, 600)
             qs.append(Query('%s.%s' % (op, cfg_name(d)), 'vec_ops.cpp', 'h_' + op, defs=d, arena=arena_for(d), unwind=unwind or d['VF_MAXM'] + 2, timeout=timeout,
                             mem_gb=(5 if d['VF_E'] in ('R', 'X') else 3) * (4 if op == 'insert_range_input' else 2 if 'input' in op else 1),
@@ -232,8 +235,17 @@ def flatset_plan(Query, pid, tier):
         q += fs_queries(Query, ['ctor_range', 'from_vector'], [fs_cfg(1, cmp=0, stub=True, mx=2, rng=1, cls=0)] + ([] if quick else [fs_cfg(0, cmp=2, d=1, sh=1, stub=True, mx=1, rng=1, cls=1)]), timeout=900, mem_gb=10)
         return q
     if pid == 'C19':
-        q = fs_queries(Query, ['lookup', 'insert', 'emplace', 'erase_key'], base, timeout=600)
+        q = fs_queries(Query, ['lookup', 'insert', 'emplace', 'erase_key'], base[:2] if quick else base, timeout=600)
         q += fs_queries(Query, ['insert_hint'], hint[:3] if quick else hint, timeout=600)
+        # discriminating sizes: n concrete per query
+        big = [('big_lookup', 32, 0), ('big_erase_key', 32, 0), ('big_insert', 16, 0), ('big_hint', 12, 0)]
+        if not quick: big += [('big_lookup', 16, 1), ('big_lookup', 24, 0), ('big_erase_key', 16, 1), ('big_insert', 24, 0), ('big_insert', 12, 1), ('big_hint', 16, 0), ('big_hint', 8, 1)]
+        for op, n, vec in big:
+            q.append(Query('fs_%s.n%d_%s' % (op, n, ['vec', 'sv4'][vec]), 'flatset_big.cpp', 'h_' + op, defs={'FB_N': n, 'FB_VEC': vec}, arena=(2, (n + 17) // 16 * 16 + 16), unwind=n + 4,
+                           timeout=1500, mem_gb=6, symbolic='sorted content of n elements (arbitrary bytes assumed strictly increasing), key, hint',
+                           bounds=dict(n=n, note='n concrete: a linear scan needs up to n comparator calls, the bound is 2*ceil(log2(n+1))+4')))
+        # SmallSet inline lookups: at most 2N+2 comparator calls
+        q += ss_queries(Query, ['lookup'], [ss_cfg(2, 0, 0, 0)] + ([] if quick else [ss_cfg(3, 0, 1, 0), ss_cfg(1, 0, 0, 0)]))
         return q
     return []
 
@@ -251,7 +263,7 @@ def plan(pid, tier, Query):
         OPS = {0: 'insert_n', 1: 'erase', 2: 'resize', 3: 'assign', 4: 'shrink', 5: 'pop_reserve', 6: 'emplace', 7: 'copy_swap'}
         # (container kind, element, operation, fixed number of initial push_backs, configuration pair)
         if quick:
-            jobs = [(1, 'B', op, k, nm) for op in (0, 1, 6) for k in (2, 4) for nm in ('cxx11', 'asserts')] + [(1, 'B', 0, 3, nm) for nm in ('cxx14', 'cxx20', 'pedantic', 'O2')] + \
+            jobs = [(1, 'B', op, k, nm) for op in (1, 6) for k in (2, 4) for nm in ('cxx11', 'asserts')] + [(1, 'B', 0, 4, nm) for nm in ('cxx11', 'asserts', 'cxx14', 'cxx20', 'pedantic', 'O2')] + \
                    [(1, 'X', 0, 2, 'cxx11'), (1, 'X', 1, 4, 'cxx20'), (0, 'B', 3, 2, 'cxx11'), (0, 'B', 4, 3, 'cxx20'), (3, 'B', 0, 3, 'cxx11'), (3, 'B', 1, 3, 'asserts'), (2, 'B', 0, 2, 'cxx11')]
         else:
             jobs = [(kd, 'B', op, k, nm) for kd in (0, 1, 2) for op in range(8) for k in (0, 2, 3, 4) for nm, _ in pairs] + \
